@@ -256,4 +256,75 @@ theorem shortest_ne_nil {f : Fmt} (hf : WF f) (hp : f.p ≤ 1000) (hM : f.maxExp
   rw [div_le_div_iff₀ (by exact_mod_cast td_pos) (by exact_mod_cast ad_pos)] at hlog
   exact_mod_cast hlog
 
+/-! ## closeness: the returned `D` is a candidate nearest to the exact value -/
+
+theorem pick_closest (P vN dlo dhi D D' : Nat) (hP : 0 < P) (h : dlo ≤ dhi)
+    (hD : D ∈ (if ((if 2 * (vN % P) < P then [vN / P] else if 2 * (vN % P) > P then [vN / P + 1]
+          else [vN / P, vN / P + 1]).filter (fun d => dlo ≤ d ∧ d ≤ dhi)).isEmpty
+        then (if vN / P < dlo then [dlo] else [dhi])
+        else (if 2 * (vN % P) < P then [vN / P] else if 2 * (vN % P) > P then [vN / P + 1]
+          else [vN / P, vN / P + 1]).filter (fun d => dlo ≤ d ∧ d ≤ dhi)))
+    (h1 : dlo ≤ D') (h2 : D' ≤ dhi) :
+    (D * P - vN) + (vN - D * P) ≤ (D' * P - vN) + (vN - D' * P) := by
+  have e1 := Nat.div_add_mod vN P
+  have e2 := Nat.mod_lt vN hP
+  generalize vN / P = d1 at *
+  generalize vN % P = r at *
+  -- linear facts about the products
+  have mono : ∀ a b : Nat, a ≤ b → a * P ≤ b * P := fun a b hab => Nat.mul_le_mul_right P hab
+  have hd1 : P * d1 = d1 * P := Nat.mul_comm _ _
+  have hs : (d1 + 1) * P = d1 * P + P := Nat.succ_mul _ _
+  have cmpD' : D' ≤ d1 ∨ d1 + 1 ≤ D' := by omega
+  have mD'1 := mono D' d1
+  have mD'2 := mono (d1 + 1) D'
+  by_cases he : ((if 2 * r < P then [d1] else if 2 * r > P then [d1 + 1]
+          else [d1, d1 + 1]).filter (fun d => dlo ≤ d ∧ d ≤ dhi)).isEmpty = true
+  · rw [if_pos he] at hD
+    have hnot : ∀ d ∈ (if 2 * r < P then [d1] else if 2 * r > P then [d1 + 1] else [d1, d1 + 1]),
+        ¬ (dlo ≤ d ∧ d ≤ dhi) := by
+      intro d hd hr
+      have : d ∈ (if 2 * r < P then [d1] else if 2 * r > P then [d1 + 1]
+          else [d1, d1 + 1]).filter (fun d => dlo ≤ d ∧ d ≤ dhi) :=
+        List.mem_filter.mpr ⟨hd, by simpa using hr⟩
+      rw [List.isEmpty_iff] at he
+      rw [he] at this; exact absurd this List.not_mem_nil
+    split at hD
+    · rename_i hlt
+      simp only [List.mem_singleton] at hD; subst hD
+      have := mono (d1 + 1) D (by omega)
+      have := mono D D' h1
+      omega
+    · rename_i hge
+      simp only [List.mem_singleton] at hD; subst hD
+      have hle : D ≤ d1 := by
+        by_contra hc
+        split at hnot
+        · exact hnot d1 (by simp) ⟨by omega, by omega⟩
+        · split at hnot
+          · have := hnot (d1 + 1) (by simp); omega
+          · exact hnot d1 (by simp) ⟨by omega, by omega⟩
+      have := mono D d1 hle
+      have := mono D' D h2
+      omega
+  · rw [if_neg he] at hD
+    have hD' := (List.mem_filter.mp hD).1
+    have mD1 := mono D d1
+    have mD2 := mono (d1 + 1) D
+    split at hD'
+    · simp only [List.mem_singleton] at hD'; subst hD'
+      rcases cmpD' with c | c
+      · have := mD'1 c; omega
+      · have := mD'2 c; omega
+    · split at hD'
+      · simp only [List.mem_singleton] at hD'; subst hD'
+        rcases cmpD' with c | c
+        · have := mD'1 c; omega
+        · have := mD'2 c; omega
+      · simp only [List.mem_cons, List.not_mem_nil, or_false] at hD'
+        rcases hD' with rfl | rfl <;> rcases cmpD' with c | c
+        · have := mD'1 c; omega
+        · have := mD'2 c; omega
+        · have := mD'1 c; omega
+        · have := mD'2 c; omega
+
 end LexVerif.Proof.RoundNE
